@@ -114,7 +114,7 @@ def headers(tier: str, full: bool):
                 add(pkh(c, h), *pats[(c + h) % 4])
         if tier == 'thorough':
             for c in range(4):
-                add(pkh(c, c), *pats[(c + 2) % 4])
+                add(pkh(c, c), 2 ** 32, 2 ** 128 + 5, 1, 16383)
         return out
     if tier == 'quick':
         for c in range(4):
